@@ -122,6 +122,19 @@ def run_case(a):
                 if not os.path.lexists(ep):
                     open(ep, "w").write("a note somebody keeps here: %s" % extra)
                     planted.append(os.path.join(outnorm, extra))
+        if idx % 4 == 2 and os.path.isdir(os.path.join(root, outnorm)):
+            # somebody's copies of generated files under names of their own (a snapshot kept for comparison, a file forked from the
+            # bindings): they carry the tool's header, they are not the tool's files
+            hdr_ = ("/**\n * Auto-generated TypeScript bindings for Tauri commands\n * Generated by tauri-typegen v0.4.2\n * Generated at: 2026-01-01T00:00:00.000000000+00:00\n"
+                    " * Generator: none\n *\n * Do not edit manually - regenerate using: cargo tauri-typegen generate\n */\n\nexport interface Kept { a: number }\n")
+            for fn_ in ("api-snapshot.ts", "forked-bindings.ts", "snapshots/types.2025.ts"):
+                fp_ = os.path.join(root, outnorm, fn_)
+                if not os.path.lexists(fp_):
+                    try:
+                        common.write_tree(os.path.join(root, outnorm), [(fn_, hdr_)])
+                        planted.append(os.path.join(outnorm, fn_))
+                    except OSError:
+                        pass
         st["foreign_planted"] = len(planted)
         preexisting = {p for p in planted}
         path = rnd.choice(["cli", "cli-rel", "cli-rel-deep", "build", "build-member", "init", "cli-config", "init-custom", "init-dotslash", "cli-flags-over-config", "cli-flags-over-config",
